@@ -31,5 +31,15 @@ CHECKS = {
         "note": "Trusted: mc/oracles/fourier.py (the documented formula), numpy FFT. int16 stacks excluded; sizes above 9 only on three elongated shapes in the thorough tier.",
         "technique": "bounded-exhaustive enumeration of the Fourier basis and configurations on the implementation against an independent gain table",
     },
+    "C12": {
+        "text": "Every integer frequency of the half-lattice of boxes 8^3, 9^3, (8,10,12), (9,8,11) (thorough adds 12^3, (12,9,10), 16^3) as a cosine and a sine plane wave x every cutoff x sigma in {0,.5,1,2,3,4} is filtered by the real lowpass/highpass/bandpass and compared with the documented gain (exact integer arithmetic at sigma=0, 1e-3 plateaus and lattice-ray monotonicity otherwise); complete transfer tables from deltas at every shift; linearity on wave pairs; complement and band-pass identities, also through the resolution/pixel-size parameters; exact round(N*px/res).",
+        "note": "Trusted: mc/oracles/fourier3.py (half-lattice, exact radius classes, exact rounding), numpy FFT. Boxes up to 16^3; monotonicity only along the 13 lattice rays (a voxelised ball is not isotropic).",
+        "technique": "bounded-exhaustive enumeration of the Fourier basis and parameter grid on the implementation against an independent gain oracle",
+    },
+    "C13": {
+        "text": "Every voxel as centre x every radius/height (to beyond the box) for spheres, cylinders, ellipsoids and shells on all boxes {6,7,9}^3 (thorough {6,7,8,9,12}^3 plus 48-boxes), judged against exact integer/rational inequalities; every mask name of the generator grammar; soft edges; complete truth tables (2^k voxels, k <= 5) for union/intersection/subtraction/difference over 8 operand kinds with inputs and file bytes checked unmodified.",
+        "note": "Trusted: mc/oracles/shapes.py (int64 arithmetic), numpy. Ellipsoidal shells only for even thickness (the statement does not fix the odd case); soft masks judged on range and outward core only.",
+        "technique": "bounded-exhaustive enumeration of mask parameters and complete truth tables on the implementation against exact analytic oracles",
+    },
 }
 NOT_APPLICABLE = {}
